@@ -10,21 +10,21 @@ Open Scope Z_scope.
    overflow ([c30_growth_step]).  Hypotheses 0 <= cost0, grow, step are the unsigned types. *)
 
 Theorem c30_supply_is_sum_of_balances : forall t0 cost0 grow stp ranks g0,
-  0 <= cost0 -> 0 <= grow -> 0 <= stp -> gt_init gt0 t0 cost0 grow stp ranks = Ok g0 ->
+  0 <= cost0 -> 0 <= grow -> 0 <= stp -> gt_init gt0 t0 cost0 grow stp ranks = Ok g0 -> Forall (fun y => 0 <= y) ranks ->
   forall ops, Forall op_wf ops ->
   let s := run (mkstate g0 [] [] []) ops in
   g_supply (s_gt s) = asum u_amount (s_users s) /\ g_total (s_gt s) = asum u_total (s_users s).
 Proof. exact final_supply. Qed.
 
 Theorem c30_total_minted_monotone : forall t0 cost0 grow stp ranks g0,
-  0 <= cost0 -> 0 <= grow -> 0 <= stp -> gt_init gt0 t0 cost0 grow stp ranks = Ok g0 ->
+  0 <= cost0 -> 0 <= grow -> 0 <= stp -> gt_init gt0 t0 cost0 grow stp ranks = Ok g0 -> Forall (fun y => 0 <= y) ranks ->
   forall ops1 ops2, Forall op_wf ops1 -> Forall op_wf ops2 ->
   g_total (s_gt (run (mkstate g0 [] [] []) ops1)) <= g_total (s_gt (run (mkstate g0 [] [] []) (ops1 ++ ops2))).
 Proof. exact final_total_monotone. Qed.
 
 (* cost = iter (total / step) grow init, whatever the history *)
 Theorem c30_cost_depends_on_total_only : forall t0 cost0 grow stp ranks g0,
-  0 <= cost0 -> 0 <= grow -> 0 <= stp -> gt_init gt0 t0 cost0 grow stp ranks = Ok g0 ->
+  0 <= cost0 -> 0 <= grow -> 0 <= stp -> gt_init gt0 t0 cost0 grow stp ranks = Ok g0 -> Forall (fun y => 0 <= y) ranks ->
   forall ops, Forall op_wf ops ->
   let s := run (mkstate g0 [] [] []) ops in
   g_steps (s_gt s) = g_total (s_gt s) / stp /\
@@ -32,7 +32,7 @@ Theorem c30_cost_depends_on_total_only : forall t0 cost0 grow stp ranks g0,
 Proof. exact final_cost. Qed.
 
 Theorem c30_cost_independent_of_split : forall t0 cost0 grow stp ranks g0,
-  0 <= cost0 -> 0 <= grow -> 0 <= stp -> gt_init gt0 t0 cost0 grow stp ranks = Ok g0 ->
+  0 <= cost0 -> 0 <= grow -> 0 <= stp -> gt_init gt0 t0 cost0 grow stp ranks = Ok g0 -> Forall (fun y => 0 <= y) ranks ->
   forall ops1 ops2, Forall op_wf ops1 -> Forall op_wf ops2 ->
   g_total (s_gt (run (mkstate g0 [] [] []) ops1)) = g_total (s_gt (run (mkstate g0 [] [] []) ops2)) ->
   g_cost (s_gt (run (mkstate g0 [] [] []) ops1)) = g_cost (s_gt (run (mkstate g0 [] [] []) ops2)).
@@ -43,21 +43,17 @@ Theorem c30_growth_step : forall n grow c r, 0 <= grow -> 0 <= c ->
   exists x, grow_nat n grow c = Some x /\ r = x * grow / UNIT /\ r < 2 ^ 128 /\ 0 <= x.
 Proof. exact grow_nat_step. Qed.
 
-(* rank = number of thresholds <= balance, for every user that ever received GT, and for every
-   user at all when no threshold is 0 (the complement of known finding class 1) *)
+(* rank = number of thresholds <= balance, for EVERY user (init rejects a zero threshold) *)
 Theorem c30_rank_is_count_le : forall t0 cost0 grow stp ranks g0,
-  0 <= cost0 -> 0 <= grow -> 0 <= stp -> gt_init gt0 t0 cost0 grow stp ranks = Ok g0 ->
+  0 <= cost0 -> 0 <= grow -> 0 <= stp -> gt_init gt0 t0 cost0 grow stp ranks = Ok g0 -> Forall (fun y => 0 <= y) ranks ->
   forall ops k, Forall op_wf ops ->
   let s := run (mkstate g0 [] [] []) ops in
   let u := aget user0 (s_users s) k in
-  (0 < u_total u \/ forall y, In y (firstn MAX_RANK ranks) -> 0 < y) ->
   u_rank u = count_le (u_amount u) (firstn MAX_RANK ranks).
 Proof. exact final_rank. Qed.
 
-Theorem c30_zero_threshold_refuted :
-  exists ranks g, gt_init gt0 1 5 UNIT 10 ranks = Ok g /\
-    u_rank (aget user0 (s_users (run (mkstate g [] [] []) [])) 1) <> count_le (u_amount user0) (g_ranks g).
-Proof. exact zero_threshold_refuted. Qed.
+Theorem c30_zero_threshold_rejected : forall t0 cost grow stp r g, gt_init gt0 t0 cost grow stp (0 :: r) <> Ok g.
+Proof. intros t0 cost grow stp r. exact (proj2 (zero_threshold_rejected t0 cost grow stp r)). Qed.
 
 (* the binary search of the code computes the count on strictly increasing tables *)
 Theorem c30_binary_search_is_count : forall ranks x, strictly_sorted ranks = true -> rank_of ranks x = count_le x ranks.
@@ -98,7 +94,7 @@ Proof. exact window_exclusive. Qed.
 
 (* the non-buybackable vault equals the confirmed exchange vaults *)
 Theorem c30_gt_vault_is_confirmed_vaults : forall t0 cost0 grow stp ranks g0,
-  0 <= cost0 -> 0 <= grow -> 0 <= stp -> gt_init gt0 t0 cost0 grow stp ranks = Ok g0 ->
+  0 <= cost0 -> 0 <= grow -> 0 <= stp -> gt_init gt0 t0 cost0 grow stp ranks = Ok g0 -> Forall (fun y => 0 <= y) ranks ->
   forall ops, Forall op_wf ops ->
   let s := run (mkstate g0 [] [] []) ops in
   g_vault (s_gt s) = asum (fun v => if v_conf v then v_amount v else 0) (s_vaults s).
